@@ -16,6 +16,7 @@ package validate
 
 import (
 	"context"
+	"encoding/json"
 	"fmt"
 	"math"
 	"math/big"
@@ -382,6 +383,7 @@ func FormatOf(path, in, format, data string, registry strfmt.Registry) *errors.V
 //
 // TODO: Normally, a JSON MAX_SAFE_INTEGER check would ensure conversion remains loss-free
 func MaximumNativeType(path, in string, val interface{}, maximum float64, exclusive bool) *errors.Validation {
+	val = nativeNumber(val)
 	kind := reflect.ValueOf(val).Type().Kind()
 	switch kind { //nolint:exhaustive
 	case reflect.Int, reflect.Int8, reflect.Int16, reflect.Int32, reflect.Int64:
@@ -419,6 +421,7 @@ func MaximumNativeType(path, in string, val interface{}, maximum float64, exclus
 //
 // TODO: Normally, a JSON MAX_SAFE_INTEGER check would ensure conversion remains loss-free
 func MinimumNativeType(path, in string, val interface{}, minimum float64, exclusive bool) *errors.Validation {
+	val = nativeNumber(val)
 	kind := reflect.ValueOf(val).Type().Kind()
 	switch kind { //nolint:exhaustive
 	case reflect.Int, reflect.Int8, reflect.Int16, reflect.Int32, reflect.Int64:
@@ -456,6 +459,7 @@ func MinimumNativeType(path, in string, val interface{}, minimum float64, exclus
 //
 // TODO: Normally, a JSON MAX_SAFE_INTEGER check would ensure conversion remains loss-free
 func MultipleOfNativeType(path, in string, val interface{}, multipleOf float64) *errors.Validation {
+	val = nativeNumber(val)
 	kind := reflect.ValueOf(val).Type().Kind()
 	switch kind { //nolint:exhaustive
 	case reflect.Int, reflect.Int8, reflect.Int16, reflect.Int32, reflect.Int64:
@@ -477,6 +481,22 @@ func MultipleOfNativeType(path, in string, val interface{}, multipleOf float64) 
 		value := valueHelp.asFloat64(val)
 		return MultipleOf(path, in, value, multipleOf)
 	}
+}
+
+// nativeNumber turns a json.Number into the int64 or float64 it denotes: as a string kind,
+// it would otherwise be read as zero. Any other value is returned as it is.
+func nativeNumber(val interface{}) interface{} {
+	num, ok := val.(json.Number)
+	if !ok {
+		return val
+	}
+	if i, err := num.Int64(); err == nil {
+		return i
+	}
+	if f, err := num.Float64(); err == nil {
+		return f
+	}
+	return val
 }
 
 // isIntegralFloat64 tells whether a float64 constraint holds an integral value that converts to int64 exactly.
